@@ -378,3 +378,65 @@ Print Assumptions C05_train_forced_teacher_later.
 Print Assumptions C05_train_forced_teacher_trace.
 Print Assumptions C05_train_params_only_at_gated_steps.
 Print Assumptions C05_train_forced_states_indep.
+
+(* ================================================================================================================ *)
+(* OFFLINE fitting (Model.fit, ESN.fit) of models with feedback: what every receiver is handed, at every timestep of
+   every sequence, in every stage.  Model: model/FitFb.v (forward nodes executed by ModelSem.forward, proxies / clamps over
+   the complete model, forced mapping = shifted targets of ALL offline nodes); correspondence: tools/props/fitfb.py.   *)
+From RV Require Import model.Ridge model.FitSem model.FitFb proofs.FitFb_proofs.
+Local Close Scope Q_scope.
+
+Section C05_fit.
+Context {F : Type} `{Num F}.
+
+(* force_teachers=True, first step of a sequence: zeros of the target's width -- in every sequence, every stage, whatever
+   the environment (readout parameters, states left by earlier sequences / stages) *)
+Theorem C05_fit_forced_first (fm : @fmodel F) Y j (e : @env F) (d : @ndesc F) s rows :
+  NoDup (map nid (fm_nodes fm)) -> In d (fm_nodes fm) -> nfb d = Some (FbNode s) ->
+  seq_rows Y j (nid d) = None -> seq_rows Y j s = Some rows -> rows <> [] ->
+  fit_fb_seen fm (forced_at true Y j 0) e d = Some (vzeros (length (hd [] rows))).
+Proof. exact (fit_forced_value_first fm Y j e d s rows). Qed.
+
+(* ... later steps: the sender's TARGET of the previous step (not its output, fitted or not) *)
+Theorem C05_fit_forced_later (fm : @fmodel F) Y j t (e : @env F) (d : @ndesc F) s rows dflt :
+  NoDup (map nid (fm_nodes fm)) -> In d (fm_nodes fm) -> nfb d = Some (FbNode s) ->
+  seq_rows Y j (nid d) = None -> seq_rows Y j s = Some rows -> S t < length rows ->
+  fit_fb_seen fm (forced_at true Y j (S t)) e d = Some (nth t rows dflt).
+Proof. exact (fit_forced_value_later fm Y j t e d s rows dflt). Qed.
+
+(* force_teachers=False: the sender's real state at the end of the previous step -- node sender, sub-model sender *)
+Theorem C05_fit_unforced (fm : @fmodel F) Y j t (e : @env F) (d : @ndesc F) s :
+  nfb d = Some (FbNode s) -> fit_fb_seen fm (forced_at false Y j t) e d = Some (st (e s)).
+Proof. exact (fit_unforced_value fm Y j t e d s). Qed.
+Theorem C05_fit_unforced_submodel (fm : @fmodel F) Y j t (e : @env F) (d : @ndesc F) outs :
+  nfb d = Some (FbModel outs) ->
+  fit_fb_seen fm (forced_at false Y j t) e d = Some (concat (map (fun o => st (e o)) outs)).
+Proof. exact (fit_unforced_value_model fm Y j t e d outs). Qed.
+
+(* the ESN node's fit hands its reservoir the same values (it has no force_teachers switch) *)
+Theorem C05_fit_forced_esn (dres drd : @ndesc F) Y j t (e : @env F) rows dflt :
+  nfb dres = Some (FbNode (nid drd)) -> nfb drd = None -> nid dres <> nid drd ->
+  seq_rows Y j (nid drd) = Some rows -> t < length rows ->
+  esn_fb_seen dres drd (forced_at true Y j t) e = Some (nth t (shifted rows) dflt).
+Proof. exact (esn_forced_value dres drd Y j t e rows dflt). Qed.
+End C05_fit.
+
+(* non-vacuity: R1(0) >> ro1(1) >> R2(2) >> ro2(3), R1 <<= ro2, R2 <<= ro1 (two stages, crossing feedback); targets
+   Y1 = 10, 20, 30 and Y2 = 100, 200, 300: R1 sees 0, 100, 200 and R2 sees 0, 10, 20 from ANY environment *)
+Definition exG_fm : @fmodel Q :=
+  mkFM [mkND 0 (kfwd (KFbAdd 1%Q)) (Some (FbNode 3)) 1; mkND 1 (fun _ _ _ _ => None) None 1;
+        mkND 2 (kfwd (KFbAdd 1%Q)) (Some (FbNode 1)) 1; mkND 3 (fun _ _ _ _ => None) None 1]
+       (mkG [0; 1; 2; 3] [(0, 1); (1, 2); (2, 3)] [1; 3]) [mkRD 1 true 1%Q 1; mkRD 3 true 1%Q 1].
+Definition exG_Y : list (nat * list (list (list Q))) := [(1, [[[10]; [20]; [30]]]%Q); (3, [[[100]; [200]; [300]]]%Q)].
+Example C05_fit_forced_example (e : @env Q) :
+  map (fun t => fit_fb_seen exG_fm (forced_at true exG_Y 0 t) e (mkND 0 (kfwd (KFbAdd 1%Q)) (Some (FbNode 3)) 1)) [0; 1; 2]
+    = [Some [0]; Some [100]; Some [200]]%Q /\
+  map (fun t => fit_fb_seen exG_fm (forced_at true exG_Y 0 t) e (mkND 2 (kfwd (KFbAdd 1%Q)) (Some (FbNode 1)) 1)) [0; 1; 2]
+    = [Some [0]; Some [10]; Some [20]]%Q.
+Proof. split; reflexivity. Qed.
+
+Print Assumptions C05_fit_forced_first.
+Print Assumptions C05_fit_forced_later.
+Print Assumptions C05_fit_unforced.
+Print Assumptions C05_fit_unforced_submodel.
+Print Assumptions C05_fit_forced_esn.
